@@ -22,8 +22,11 @@ import (
 	"time"
 
 	"github.com/xelaj/mtproto"
+	"github.com/xelaj/mtproto/internal/encoding/tl"
+	"github.com/xelaj/mtproto/internal/mtproto/messages"
 	"github.com/xelaj/mtproto/internal/mtproto/objects"
 	"github.com/xelaj/mtproto/internal/session"
+	"github.com/xelaj/mtproto/internal/transport"
 )
 
 const (
@@ -76,6 +79,10 @@ type rsServer struct {
 	conns   int
 	frames  []rsFrame // every client frame, in arrival order
 	reqs    []rsFrame // the request frames (pings) among them
+	acks    []rsFrame // the msgs_ack frames among them
+	held    []uint64  // msg_ids taken earlier for messages that are delivered late (plan step "h")
+	last    []byte    // the last top-level packet sent, for a verbatim re-send (plan step "=")
+	lastLog string
 	nextID  uint64
 	content uint32 // number of content-related messages sent
 	sid     uint64
@@ -158,6 +165,7 @@ func (s *rsServer) readLoop(c net.Conn) {
 					ids = append(ids, strconv.FormatUint(binary.LittleEndian.Uint64(f.Body[12+8*i:]), 10))
 				}
 			}
+			s.acks = append(s.acks, f)
 			s.log.add("S:L:%d:%d:%d:k:%s", f.Mid, f.Seq, int64(f.Salt), strings.Join(ids, "+"))
 		default:
 			s.log.add("S:?:%d:%d:%d:o:%08x", f.Mid, f.Seq, int64(f.Salt), ctor)
@@ -218,8 +226,17 @@ func (s *rsServer) newMsgID() uint64 {
 
 // sendBody seals and sends one message; content-related messages get an odd seq_no.
 func (s *rsServer) sendBody(body []byte, contentRelated bool, desc string) uint64 {
+	return s.sendBodyID(0, body, contentRelated, desc)
+}
+
+// sendBodyID: useID != 0 sends under a msg_id taken earlier (a message created before others that were
+// delivered first).
+func (s *rsServer) sendBodyID(useID uint64, body []byte, contentRelated bool, desc string) uint64 {
 	s.mu.Lock()
-	mid := s.newMsgID()
+	mid := useID
+	if mid == 0 {
+		mid = s.newMsgID()
+	}
 	seq := s.content * 2
 	if contentRelated {
 		seq++
@@ -228,14 +245,119 @@ func (s *rsServer) sendBody(body []byte, contentRelated bool, desc string) uint6
 	c := s.conn
 	sid := s.sid
 	s.mu.Unlock()
-	s.log.add("R:%d:%d:%s", mid, seq, desc)
+	line := fmt.Sprintf("R:%d:%d:%s", mid, seq, desc)
+	s.log.add("%s", line)
 	pkt := envSeal(8, s.key, envMsg{Salt: 0x1122334455667788, Sid: sid, Mid: mid, Seq: seq, Body: body}, rsPad(len(body)))
 	hdr := make([]byte, 4)
 	binary.LittleEndian.PutUint32(hdr, uint32(len(pkt)))
+	s.mu.Lock()
+	s.last, s.lastLog = append(hdr, pkt...), line
+	s.mu.Unlock()
 	if c != nil {
 		_, _ = c.Write(append(hdr, pkt...))
 	}
 	return mid
+}
+
+// resend delivers the last top-level message once more, byte for byte (a server that has not seen its
+// acknowledgement does that).
+func (s *rsServer) resend() bool {
+	s.mu.Lock()
+	pkt, line, c := s.last, s.lastLog, s.conn
+	s.mu.Unlock()
+	if pkt == nil || c == nil {
+		return false
+	}
+	s.log.add("%s", line)
+	_, _ = c.Write(pkt)
+	return true
+}
+
+// ---- yield rules: hold a goroutine of the client at a named point (build-tag hooks in /repo) -------------
+
+type rsYieldRule struct {
+	point, sel string
+	d          time.Duration
+	n          int
+}
+
+var (
+	rsYieldMu    sync.Mutex
+	rsYieldRules []*rsYieldRule
+	rsYieldHits  = map[string]int{}
+)
+
+func rsYieldSel(arg interface{}) string {
+	var body []byte
+	switch a := arg.(type) {
+	case *objects.MsgsAck:
+		return "k"
+	case *objects.PingParams:
+		return "q"
+	case messages.Common:
+		body = a.GetMsg()
+	case tl.Object:
+		return "o"
+	}
+	if len(body) >= 4 {
+		switch binary.LittleEndian.Uint32(body) {
+		case rsCrcAck:
+			return "k"
+		case rsCrcPing:
+			return "q"
+		case rsCrcRpcResult:
+			return "r"
+		}
+	}
+	return "o"
+}
+
+func rsYield(point string, arg interface{}) {
+	sel := rsYieldSel(arg)
+	var d time.Duration
+	rsYieldMu.Lock()
+	for _, ru := range rsYieldRules {
+		if ru.n > 0 && ru.point == point && (ru.sel == "*" || ru.sel == sel) {
+			ru.n--
+			d = ru.d
+			rsYieldHits[point+"/"+ru.sel]++
+			break
+		}
+	}
+	rsYieldMu.Unlock()
+	if d > 0 {
+		time.Sleep(d)
+	}
+}
+
+// rsTeardown reports how often each yield rule actually held a goroutine.
+func rsTeardown() {
+	rsYieldMu.Lock()
+	defer rsYieldMu.Unlock()
+	if theG != nil && len(rsYieldHits) > 0 {
+		hits := map[string]int{}
+		for k, v := range rsYieldHits {
+			hits[k] = v
+		}
+		theG.Extra["yield_points_hit"] = hits
+	}
+}
+
+// rsAddYield parses "y<p><sel>:<µs>:<n>" — p: w = transport write, c = caller between send and receive,
+// r = receive loop before it processes a message; sel: k ack, q request, r rpc_result, o other, * any.
+func rsAddYield(st string) bool {
+	parts := strings.Split(st[1:], ":")
+	if len(parts) != 3 || len(parts[0]) != 2 {
+		return false
+	}
+	point := map[byte]string{'w': "write", 'c': "call:sent", 'r': "recv:process"}[parts[0][0]]
+	if point == "" {
+		return false
+	}
+	rsYieldMu.Lock()
+	rsYieldRules = append(rsYieldRules, &rsYieldRule{point: point, sel: parts[0][1:], d: time.Duration(atoi(parts[1])) * time.Microsecond, n: atoi(parts[2])})
+	rsYieldMu.Unlock()
+	return true
 }
 
 func rsPad(bodyLen int) []byte {
@@ -314,7 +436,9 @@ func rsResult(kind string, tag int) (payload []byte, val string) {
 		return rsCat(rsU32(rsCrcVector), rsU32(3), rsU64(uint64(tag)), rsU64(uint64(tag)+1), rsU64(0)),
 			fmt.Sprintf("v(l%d;l%d;l0)", tag, tag+1)
 	case "vo": // Vector<future_salt> (boxed objects)
-		fs := func(a uint32, salt uint64) []byte { return rsCat(rsU32(rsCrcFutSalt), rsU32(a), rsU32(a+1), rsU64(salt)) }
+		fs := func(a uint32, salt uint64) []byte {
+			return rsCat(rsU32(rsCrcFutSalt), rsU32(a), rsU32(a+1), rsU64(salt))
+		}
 		return rsCat(rsU32(rsCrcVector), rsU32(2), fs(uint32(tag), 11), fs(uint32(tag)+5, 12)),
 			fmt.Sprintf("v(o0949d9dc(w%d;w%d;l11);o0949d9dc(w%d;w%d;l12))", tag, tag+1, tag+5, tag+6)
 	case "e": // rpc_error
@@ -367,6 +491,11 @@ type rsRun struct {
 func rsStart(kinds []string, salt int64) (*rsRun, error) {
 	log := &rsLog{}
 	key := envLCG(256, 99)
+	rsYieldMu.Lock()
+	rsYieldRules = nil
+	rsYieldMu.Unlock()
+	mtproto.VerifYield = rsYield
+	transport.VerifYield = rsYield
 	srv := rsNewServer(key, log)
 	store := &rsStore{log: log, s: &session.Session{Key: key, Hash: envSha1(key)[12:20], Salt: salt, Hostname: srv.ln.Addr().String()}}
 	m, err := mtproto.NewMTProto(mtproto.Config{SessionStorage: store, ServerHost: srv.ln.Addr().String()})
@@ -516,6 +645,31 @@ func (r *rsRun) item(it string) (body []byte, content bool, desc string, ok bool
 		return rsCat(rsU32(rsCrcContainer), rsU32(0)), false, "cont()", true
 	case it == "b":
 		return rsCat(rsU32(rsCrcBadMsg), rsU64(4), rsU32(1), rsU32(16)), false, "badmsg(4)", true
+	case strings.HasPrefix(it, "Bk"): // bad_msg_notification naming the j-th msgs_ack the client wrote
+		s := r.srv
+		s.mu.Lock()
+		j := atoi(it[2:])
+		if j >= len(s.acks) {
+			s.mu.Unlock()
+			return nil, false, "", false
+		}
+		f := s.acks[j]
+		s.mu.Unlock()
+		return rsCat(rsU32(rsCrcBadMsg), rsU64(f.Mid), rsU32(f.Seq), rsU32(35)), false, fmt.Sprintf("badmsg(%d)", f.Mid), true
+	case strings.HasPrefix(it, "rk"): // bad_server_salt naming the j-th msgs_ack the client wrote
+		parts := strings.SplitN(it[2:], "/", 2)
+		salt, _ := strconv.ParseInt(parts[1], 10, 64)
+		s := r.srv
+		s.mu.Lock()
+		j := atoi(parts[0])
+		if j >= len(s.acks) {
+			s.mu.Unlock()
+			return nil, false, "", false
+		}
+		f := s.acks[j]
+		s.mu.Unlock()
+		return rsCat(rsU32(rsCrcBadSalt), rsU64(f.Mid), rsU32(f.Seq), rsU32(48), rsU64(uint64(salt))), false,
+			fmt.Sprintf("salt(%d/%d)", f.Mid, salt), true
 	case strings.HasPrefix(it, "B"): // bad_msg_notification naming caller i's latest request
 		i := atoi(it[1:])
 		f, found := r.srv.latestReq(i)
@@ -567,6 +721,32 @@ func (r *rsRun) runPlan(plan string) string {
 			}
 		case strings.HasPrefix(st, "s"):
 			time.Sleep(time.Duration(atoi(st[1:])) * time.Microsecond)
+		case st == "W": // wait until everything sent so far has been acknowledged
+			r.rsWaitAcks(500 * time.Millisecond)
+		case st == "h": // take a msg_id now for a message that is delivered later ("^item")
+			r.srv.mu.Lock()
+			r.srv.held = append(r.srv.held, r.srv.newMsgID())
+			r.srv.mu.Unlock()
+		case strings.HasPrefix(st, "^"):
+			r.srv.mu.Lock()
+			var id uint64
+			if len(r.srv.held) > 0 {
+				id, r.srv.held = r.srv.held[0], r.srv.held[1:]
+			}
+			r.srv.mu.Unlock()
+			b, content, desc, ok := r.item(st[1:])
+			if !ok || id == 0 {
+				return "bad-item:" + st
+			}
+			r.srv.sendBodyID(id, b, content, desc)
+		case st == "=":
+			if !r.srv.resend() {
+				return "bad-item:="
+			}
+		case strings.HasPrefix(st, "y"):
+			if !rsAddYield(st) {
+				return "bad-item:" + st
+			}
 		case st == "j": // join: wait until every call started so far has returned
 			if !r.waitCalls(3 * time.Second) {
 				return "calls-did-not-return-at-join"
